@@ -13,14 +13,16 @@ import (
 
 // Rec is one probe record: layer i sits just outside policy i; layer len(stack) wraps the function.
 type Rec struct {
-	Layer   int
-	Enter   bool
-	App     int // application number within the layer (in enter order)
-	Seq     int // position in the execution's probe log
-	T       int64
-	Thread  int
-	Creator int // the thread that spawned Thread
-	Exec    failsafe.Execution[int]
+	Layer     int
+	Enter     bool
+	App       int // application number within the layer (in enter order)
+	Seq       int // position in the execution's probe log
+	T         int64
+	Thread    int
+	Creator   int // the thread that spawned Thread
+	ThreadSeq int // position of Thread in the order of all spawns
+	Spawned   int // threads spawned so far when this record was made
+	Exec      failsafe.Execution[int]
 	// exit only
 	Res             *common.PolicyResult[int]
 	CanceledAtExit  bool
@@ -33,7 +35,8 @@ type Rec struct {
 }
 
 type App struct {
-	Started    int     // hedge layers: attempts started (1 + OnHedge events)
+	Started    int     // hedge layers: attempts actually started (goroutines spawned by the application that entered the next layer)
+	Announced  int     // hedge layers: 1 + OnHedge events
 	StartTimes []int64 // hedge layers: instants of the OnHedge events
 	LateChild  bool    // an attempt only got to run after the application had returned
 	Layer      int
@@ -69,7 +72,7 @@ func (env *Env) recEnter(layer int, exec failsafe.Execution[int]) int {
 	app := env.appCount[layer]
 	env.appCount[layer]++
 	env.seq++
-	rec := &Rec{Layer: layer, Enter: true, App: app, Seq: env.seq, T: vrt.Elapsed(), Thread: vrt.ThreadID(), Creator: vrt.ThreadCreator(vrt.ThreadID()), Exec: exec}
+	rec := &Rec{Layer: layer, Enter: true, App: app, Seq: env.seq, T: vrt.Elapsed(), Thread: vrt.ThreadID(), Creator: vrt.ThreadCreator(vrt.ThreadID()), ThreadSeq: vrt.ThreadSpawnSeq(vrt.ThreadID()), Spawned: vrt.SpawnCount(), Exec: exec}
 	if env.ProbeStats {
 		rec.Attempts, rec.Execs, rec.Retries, rec.Hedges, rec.IsHedge = exec.Attempts(), exec.Executions(), exec.Retries(), exec.Hedges(), exec.IsHedge()
 	}
@@ -81,7 +84,7 @@ func (env *Env) recEnter(layer int, exec failsafe.Execution[int]) int {
 //go:norace
 func (env *Env) recExit(layer, app int, exec failsafe.Execution[int], r *common.PolicyResult[int]) {
 	env.seq++
-	rec := &Rec{Layer: layer, App: app, Seq: env.seq, T: vrt.Elapsed(), Thread: vrt.ThreadID(), Creator: vrt.ThreadCreator(vrt.ThreadID()), Exec: exec, Res: r}
+	rec := &Rec{Layer: layer, App: app, Seq: env.seq, T: vrt.Elapsed(), Thread: vrt.ThreadID(), Creator: vrt.ThreadCreator(vrt.ThreadID()), ThreadSeq: vrt.ThreadSpawnSeq(vrt.ThreadID()), Spawned: vrt.SpawnCount(), Exec: exec, Res: r}
 	if env.ProbeStats {
 		rec.Attempts, rec.Execs, rec.Retries, rec.Hedges, rec.IsHedge = exec.Attempts(), exec.Executions(), exec.Retries(), exec.Hedges(), exec.IsHedge()
 	}
@@ -164,7 +167,8 @@ func (env *Env) Apps() (roots []*App, byLayer [][]*App) {
 // reattributeHedgeChildren: a hedge application starts 1 + (number of its OnHedge events) attempts,
 // each on a new goroutine that may only get to run after the application has returned (and after a
 // later application of the same layer has started its own). The attempts of an application are
-// therefore identified by thread ancestry and creation order, as many as it started.
+// therefore identified by thread ancestry: spawned by the application's thread between its entry and
+// its return.
 func (env *Env) reattributeHedgeChildren(byLayer [][]*App) {
 	for i, s := range env.Stack {
 		if s.Kind != KHedge || i+1 >= len(byLayer) {
@@ -173,38 +177,34 @@ func (env *Env) reattributeHedgeChildren(byLayer [][]*App) {
 		for _, c := range byLayer[i+1] {
 			c.Parent = nil
 		}
-		taken := map[*App]bool{}
 		for _, a := range byLayer[i] {
 			a.Children = nil
-			a.Started = 1
+			a.Announced = 1
 			hi := 1 << 60
 			if a.Out != nil {
 				hi = a.Out.Seq
 			}
 			for _, e := range env.Events {
 				if e.Policy == i && e.Name == "hedge" && e.Seq > a.In.Seq && e.Seq < hi {
-					a.Started++
+					a.Announced++
 					a.StartTimes = append(a.StartTimes, e.At)
 				}
 			}
-			// an attempt runs on a goroutine spawned by the thread that runs the application; thread ids
-			// grow in creation order, so among the entries spawned by that thread the application's own
-			// attempts are the earliest-created ones not yet attributed
+			// an attempt runs on a goroutine spawned by the thread that runs the application, between the
+			// application's entry and its return: that, not the OnHedge events, says what was started
 			cands := append([]*App{}, byLayer[i+1]...)
-			sort.SliceStable(cands, func(x, y int) bool { return cands[x].In.Thread < cands[y].In.Thread })
+			sort.SliceStable(cands, func(x, y int) bool { return cands[x].In.ThreadSeq < cands[y].In.ThreadSeq })
 			for _, c := range cands {
-				if len(a.Children) == a.Started {
-					break
+				if c.In.Creator != a.In.Thread || c.In.ThreadSeq < a.In.Spawned || (a.Out != nil && c.In.ThreadSeq >= a.Out.Spawned) {
+					continue
 				}
-				if !taken[c] && c.In.Seq > a.In.Seq && c.In.Creator == a.In.Thread {
-					taken[c] = true
-					c.Parent = a
-					a.Children = append(a.Children, c)
-					if a.Out != nil && c.In.Seq > a.Out.Seq {
-						a.LateChild = true
-					}
+				c.Parent = a
+				a.Children = append(a.Children, c)
+				if a.Out != nil && c.In.Seq > a.Out.Seq {
+					a.LateChild = true
 				}
 			}
+			a.Started = len(a.Children)
 		}
 	}
 }
